@@ -189,7 +189,9 @@ func (w *world) rollback(op WOp) {
 func (w *world) checkReopenAs(rec *commitRec, oracle, where string) {
 	save := w.v
 	w.checkReopen(w.db.Get, rec, where)
-	if w.v != nil && save == nil {
+	if w.v != nil && save == nil && w.v.Oracle != "gc.shared-node" {
+		// (a missing node that is the listed shared-node finding keeps its own oracle id, so that it is matched
+		// against known_findings.json however it surfaces)
 		w.v.Oracle = oracle
 	}
 }
